@@ -384,6 +384,15 @@ class Schema:
                 return eng.get_attr(args[0], args[1].t.as_string(), st)
             if args[1].k == "py" and isinstance(args[1].x, str):
                 return eng.get_attr(args[0], args[1].x, st)
+            # symbolic attribute name: case split over the names the code base ever stores in such a field
+            cands = ["sections", "symbols", "proxies"] if args[0].cls == "Module" else None
+            if cands and args[1].k in ("val", "str"):
+                nm = to_val(args[1])
+                st.oblige("safety.getattr_name_known", z3.Or([nm == VStr(z3.StringVal(c)) for c in cands]))
+                res = eng.get_attr(args[0], cands[-1], st)
+                for c in reversed(cands[:-1]):
+                    res = eng.ite(nm == VStr(z3.StringVal(c)), eng.get_attr(args[0], c, st), res, st)
+                return res
             raise Unsupported("getattr with symbolic name")
         if name == "setattr":
             nm = args[1]
@@ -542,7 +551,9 @@ class Schema:
                 dflt = to_val(args[1]) if len(args) > 1 else VNone
                 return SV("val", z3.If(present, z3.Select(obj.t, key), dflt))
             # dict of sets: returns the set or None; model as optional set via (present, set)
-            return SV("optset", z3.Select(obj.t, key), x=present)
+            elem = {"_symbol_name_index": "Symbol", "_symbol_referent_index": "Symbol"}.get(
+                (obj.cls or "").split("@")[-1]) if obj.cls else None
+            return SV("optset", z3.Select(obj.t, key), x=present, cls="Symbol" if obj.cls == "defaultdict:set" else None)
         if name == "items":
             x = fresh("k", Val)
             if vk != "val":
